@@ -1,8 +1,10 @@
 """C04 — a mixture's descriptors are the sum of its components'.
 
-Proof: lean/PGA/Props/C04.lean — for the decomposition model, the disjoint union of two inputs of one scheme decomposes
-to the name-wise sum, and fails exactly when a component fails (every size).  That the matches of a connected pattern on
-'A.B' are those on A plus the shifted ones on B is the matcher's business (C08) and is validated here on every case.
+Proof: lean/PGA/Props/C04.lean — (above the matcher) the disjoint union of two inputs of one scheme decomposes to the
+name-wise sum, and fails exactly when a component fails (every size); (end to end) every pattern the reader returns is
+connected, an embedding of a connected pattern without molecule-level prefix into A ⊔ B lies in one component, the Benson
+perception works component by component, hence `decompose S (A ⊔ B)` is additive (`C04_decompose_union`), also for the graph
+numbered as RDKit numbers a mixture (`C04_decompose_mixture`, via C03).
 Oracle (relational): implementation on 'A.B' vs implementation on A and on B.
 """
 import itertools
@@ -10,14 +12,18 @@ from rdkit import Chem
 from . import common, lib_scheme as S, lib_molgen as G
 
 PROPS = ['PGA.Props.C04']
-GEN = []
+GEN = ['Chars', 'MolQuery']
 OBLIGATIONS = ['PGA.Scheme.' + t for t in [
     'C04_cnt_union', 'C04_centres_union', 'C04_groupCount_union', 'C04_distinctSets_union',
-    'C04_remap_additive', 'C04_descriptors_union']]
+    'C04_remap_additive', 'C04_descriptors_union']] + ['PGA.C04.' + t for t in [
+    'C04_load_connected', 'C04_embeds_union', 'C04_aromatize_union', 'C04_decompose_union', 'C04_decompose_mixture']]
 RULE = ('cases = (scheme, A, B[, C]): all ordered pairs (incl. self-pairs) from a pool of fixed and grown molecules per scheme, '
         'some triples, pairs with an out-of-vocabulary component (failure propagation), for the nine shipped schemes. '
         'distinct = distinct (scheme, A, B); non-trivial = both components have >= 2 heavy atoms or one fails.')
-ASSUMPTIONS = ['A-graph: RDKit numbers the atoms of "A.B" as those of A followed by those of B and reports the rings of A then the shifted rings of B (validated on every case)']
+ASSUMPTIONS = ['A-graph for mixtures: RDKit\'s explicit-H graph of "A.B" is the disjoint union of the graphs of A and B renumbered by an explicit '
+               'permutation (heavy atoms of all parts first, then the hydrogens part by part): atoms identical, bonds identical as a multiset '
+               '(listed in another order), rings in the same order — hypothesis MolIso of C04_decompose_mixture, measured on every mixture of the '
+               'full tie (lib_scheme.mixture_is_union); the exceptions (bridged bicycles whose symmetrised extra ring RDKit lists last) are counted']
 TRUSTED = []
 
 
@@ -28,9 +34,14 @@ def run(ctx):
         ctx.count('corpus')
         replay(ctx, rec)
     batch = []
+    full = S.FullTie(ctx, max_cases=ctx.n(160, 2000))      # per library
     for name, lib in libs_:
         kind = 'gas' if name in ('BensonGA', 'PPY') else 'surface'
         pool = list(G.MIX_GAS if kind == 'gas' else G.MIX_SURFACE)
+        if kind == 'gas':
+            # fused / linked C6 rings: RDKit's Kekule form gives their second ring the other alternation phase (DOUBLE first),
+            # which a lone benzene ring never has
+            pool += ['c1ccc2ccccc2c1', 'c1ccc(cc1)c1ccccc1', 'Cc1ccc2ccccc2c1', 'CC1(C2=C(C3=CC=CC=C3)C=CC=C2)CC1']
         if ctx.thorough():
             pool += list((G.FIXED_GAS if kind == 'gas' else G.FIXED_SURFACE)[:40])
         for _ in range(ctx.n(8, 60)):
@@ -43,10 +54,19 @@ def run(ctx):
         for a, b in pairs[:ctx.n(260, 4000)]:
             if ctx.time_left() < 60:
                 break
-            check_pair(ctx, name, lib, [a, b], [res[a], res[b]], batch)
+            check_pair(ctx, name, lib, [a, b], [res[a], res[b]], batch, full)
         for _ in range(ctx.n(10, 200)):
             t = [rng.choice(pool) for _ in range(3)]
-            check_pair(ctx, name, lib, t, [res[x] for x in t], batch)
+            check_pair(ctx, name, lib, t, [res[x] for x in t], batch, full)
+        full.run()
+    full.run()
+    # table observation behind C04_decompose_union: no pattern of any shipped scheme carries a molecule-level prefix (nor `*`)
+    ctx.assumption('shipped_schemes_without_molecule_level_prefix_and_star', bool(full.flags) and all(f['nomolprefix'] and f['nostar'] for f in full.flags),
+                   '%d scheme transmissions, all read by the model reader: noMolPrefix and noStar hold for each' % len(full.flags))
+    yes, no = ctx.stats.get('mixture_is_renumbered_union_yes', 0), ctx.stats.get('mixture_is_renumbered_union_NO', 0)
+    ctx.assumption('mixture_graph_is_renumbered_union_of_component_graphs', yes > 0 and no <= 0.05 * (yes + no),
+                   '%d of %d mixtures: atoms identical, bonds identical as a multiset, rings in the same order under the explicit H-last '
+                   'permutation; %d exceptions (ring list of a bridged bicycle reordered)' % (yes, yes + no, no))
     replies = ctx.model([b[0] for b in batch])
     if replies is not None:
         for (req, impl, where), rep in zip(batch, replies):
@@ -60,9 +80,23 @@ def run(ctx):
                 ctx.disagree('corr:c02.descriptors', where, impl['ok'], {k: float(v) for k, v in model.items()})
 
 
-def check_pair(ctx, name, lib, parts, results, batch):
+def check_pair(ctx, name, lib, parts, results, batch, full=None):
     mix = '.'.join(parts)
     r = S.impl_descriptors(lib, mix)
+    if full is not None and not r.get('err', '').startswith('internal') and (full.max_cases is None or full.n < full.max_cases):
+        u = S.mixture_is_union(parts)
+        if u is not None:
+            ctx.count('mixture_is_renumbered_union_%s' % ('yes' if u[0] else 'NO'))
+            if u[0]:
+                ctx.count('mixture_' + u[1].replace(' ', '_'))
+            else:
+                ex = ctx.extra.setdefault('coverage', {}).setdefault('mixture_not_union_examples', [])
+                if len(ex) < 6:
+                    ex.append([mix, u[1]])
+    if full is not None and not r.get('err', '').startswith('internal'):
+        # second tie: the end-to-end model on the mixture's raw graph
+        full.add(lib, mix, r, {'scheme': name, 'smiles': mix}, S.impl_atoms(lib) if 'ok' in r else None,
+                 S.hook_graph(lib) if 'ok' in r else None)
     heavy = [sum(1 for a in Chem.MolFromSmiles(p).GetAtoms()) for p in parts]
     fails = any('err' in x for x in results)
     ctx.case((name, mix) if (min(heavy) >= 2 or fails) else None, {'scheme': name, 'mixture': mix})
@@ -113,10 +147,13 @@ def replay(ctx, rec):
     return len(ctx.violations) == before
 
 
-LEVEL_TEXT = ('Lean 4 theorem: for the decomposition model, the disjoint union of two inputs of one scheme (atoms of B shifted, no cross '
-              'edges, matches of each pattern = matches on A plus shifted matches on B) fails exactly when A or B fails and otherwise gives, '
-              'for every name, the sum of the components\' counts; any sizes; chain-free remaps; descriptor names separate from group names '
-              '(explicit hypothesis, checked per case). The implementation is compared with itself on A.B vs A and B (relational oracle).')
-LEVEL_NOTE = ('Trusted: Lean kernel, standard axioms, RDKit\'s treatment of dot-disconnected SMILES (A-graph). That connected patterns match '
-              'inside one component only is part of C08 (the matcher), not proved here.')
+LEVEL_TEXT = ('Lean 4 theorems: for the end-to-end model decompose and all well-formed graphs A, B, the disjoint union A ⊔ B (and any renumbering of it, as RDKit '
+              'numbers a mixture) fails exactly when A or B fails and otherwise gives, for every name, the sum of the components\' counts '
+              '(C04_decompose_union, C04_decompose_mixture) — through: every pattern the reader returns is connected (C04_load_connected), an embedding of a '
+              'connected pattern lies in one component (C04_embeds_union), the Benson perception works per component (C04_aromatize_union), and additivity of the '
+              'decomposition above the matcher (C04_descriptors_union; chain-free remaps; descriptor names separate from group names, checked per case). '
+              'The implementation is compared with itself on A.B vs A and B (relational oracle) and with the end-to-end model on the mixture\'s graph.')
+LEVEL_NOTE = ('Trusted: Lean kernel, standard axioms, RDKit\'s treatment of dot-disconnected SMILES (A-graph for mixtures: the mixture graph is the renumbered '
+              'union of the component graphs — measured on every compared mixture). Explicit hypothesis: no molecule-level prefix in any pattern (holds for '
+              'every pattern of the nine shipped schemes: table observation re-made each run from the live schemes through the model reader); no `*`, cap inactive.')
 TECHNIQUE = 'Lean 4 proof (additivity of the decomposition model over disjoint unions) + relational differential run of the implementation'
